@@ -81,7 +81,8 @@ def run_case(c, d):
     if c['T']:
         line += ' -T %s' % tfile
     kind = c['stmt_kind']
-    stmt = 'res = h(4); res2 = K().meth(2); import lpv_mod; res3 = lpv_mod.mg(3); ender(%r); after = 1' % kind
+    stmt = ('res = h(4); res2 = K().meth(2); import lpv_mod; res3 = lpv_mod.mg(3); import lpv_pkg.sub; res4 = lpv_pkg.ptop(1) + lpv_pkg.sub.pinner(2); '
+            'ender(%r); after = 1' % kind)
     line += ' ' + stmt
     del PAGES[:]
     out = io.StringIO()
@@ -123,7 +124,7 @@ def run_case(c, d):
     elif c['T']:
         r['T_text'] = None
     builtins.__dict__.pop('profile', None)
-    for k in ('res', 'res2', 'res3', 'after', 'lpv_mod'):
+    for k in ('res', 'res2', 'res3', 'res4', 'after', 'lpv_mod', 'lpv_pkg'):
         ip.user_ns.pop(k, None)
     return r
 
@@ -134,6 +135,12 @@ def main():
     with tempfile.TemporaryDirectory(dir=os.environ.get('LPVERIF_SCRATCH', '/var/tmp')) as d:
         with open(os.path.join(d, 'lpv_mod.py'), 'w') as fh:
             fh.write(MODSRC)
+        # a package whose __init__ and sub-module both define functions: `-m lpv_pkg.sub` names the sub-module only
+        os.makedirs(os.path.join(d, 'lpv_pkg'))
+        with open(os.path.join(d, 'lpv_pkg', '__init__.py'), 'w') as fh:
+            fh.write('def ptop(x):\n    return x + 1\n')
+        with open(os.path.join(d, 'lpv_pkg', 'sub.py'), 'w') as fh:
+            fh.write('def pinner(x):\n    y = x * 2\n    return y\n')
         sys.path.insert(0, d)
         for c in payload['cases']:
             try:
